@@ -687,7 +687,7 @@ impl Iterator for EncloserCandidates<'_> {
 
         if &cur != soa {
             let next = cur.base_name();
-            debug_assert_ne!(next, Name::root());
+            debug_assert!(soa.zone_of(&next));
             self.cur = Some(next);
         }
 
